@@ -38,9 +38,6 @@ template <int FAM, class It>
 static __attribute__((noinline)) void check_circ(std::pair<It, It> &pr, const RefSeq &ref, bool ordered, int ml) {
   const int len = ref.n;
   It &it = pr.first;
-#ifdef C05_PROF_NOCHECK
-  return;
-#endif
   v_assert(!ref.overflow, "C05 harness capacity (reference sequence)");
   const It &end = pr.second;
   if (len == 0) {
@@ -88,8 +85,38 @@ static __attribute__((noinline)) void check_circ(std::pair<It, It> &pr, const Re
   }
 }
 
+// Symbolic step counts (entry harness_c05_steps): k forward steps, then b backward steps, both chosen by the solver.
+// k ranges over 0 .. max_laps*len (k == max_laps*len is the end position), b over 0 .. k (b == 0 at the end position:
+// stepping back from end is not part of the property).  g_obs holds the first lap, read off a copy by a concrete walk;
+// its agreement with the reference is established by the enumerated check above, here only ordered families compare
+// with the reference directly.
+template <int FAM, class It>
+static __attribute__((noinline)) void check_steps(std::pair<It, It> &pr, const RefSeq &ref, bool ordered, int ml) {
+  const int len = ref.n;
+  if (len == 0 || ref.overflow) return;
+  It &it = pr.first;
+  { It c = it; for (int j = 0; j < len; ++j) { g_obs[j] = (*c).idx(); ++c; } }
+  const int total = 3 * len;
+  const int k = (int)v_nondet_below((unsigned)total + 1), b = (int)v_nondet_below((unsigned)total + 1);
+  v_assume(k <= ml * len && b <= k && (k < ml * len || b == 0));
+  for (int j = 0; j < total; ++j) if (j < k) ++it;
+  v_assert(it.valid() == (k < ml * len), "C05 steps: after k increments valid() holds iff k < max_laps*len");
+  if (k == ml * len) v_assert(it == pr.second, "C05 steps: begin advanced max_laps*len times equals end");
+  else {
+    v_assert((*it).idx() == g_obs[k % len] && it.lap() == k / len, "C05 steps: after k increments *it is element k % len of the first lap and lap() == k / len");
+    if (ordered) v_assert((*it).idx() == ref.h[k % len], "C05 steps: after k increments *it == reference[k % len] (ordered family)");
+  }
+  for (int j = 0; j < total; ++j) if (j < b) --it;
+  if (k < ml * len) {
+    const int p = k - b;
+    v_assert(it.valid() && (*it).idx() == g_obs[p % len] && it.lap() == p / len, "C05 steps: b decrements after k increments lead to position k - b (cur_handle, lap, valid)");
+  }
+}
+
+static bool g_steps_mode = false;
 #define CIRC(FAM, PAIRFN, ITERFN, H, REFFN, ORDERED, C)                                                        \
   do { REFFN(s, (C), ref);                                                                                     \
+       if (g_steps_mode) { auto pr = m.PAIRFN(H(C), ml); check_steps<FAM>(pr, ref, ORDERED, ml); break; }        \
        { auto pr = m.PAIRFN(H(C), ml);                                                                         \
          if (do_range) v_assert(m.ITERFN(H(C), ml) == pr.first, "C05 circ: x_iter(h, max_laps) equals begin of the (begin,end) pair"); \
          check_circ<FAM>(pr, ref, ORDERED, ml); }                                                              \
@@ -164,6 +191,28 @@ template <unsigned I> struct CircCase { static __attribute__((noinline)) void ru
 extern "C" void harness_c05_circ() {
   unsigned sel = v_nondet_below(C05_PER);
   dispatch<CircCase, C05_PER>(sel);
+}
+
+static __attribute__((noinline)) void steps_case(unsigned i) {
+  unsigned base = v_param(0), kind = v_param(1), start = v_param(2), groups = v_param(3), per = v_param(5);
+  if (groups == 0) groups = 15;
+  if (per == 0 || per > C05_PER) per = C05_PER;
+  if (i >= per) return;
+  unsigned idx = start + i;
+  if (kind == K_NONE ? idx != 0 : idx >= c05_base_count(base, kind)) return;
+  TopologyKernel m;
+  c05_build(m, base);
+  if (kind != K_NONE) c05_delete(m, kind, idx);
+  int ml = (int)v_nondet_below(3) + 1;
+  g_steps_mode = true;
+  check_all(m, groups, ml, false);
+  v_witness("C05 steps case end");
+}
+template <unsigned I> struct StepsCase { static __attribute__((noinline)) void run() { steps_case(I); } };
+
+extern "C" void harness_c05_steps() {
+  unsigned sel = v_nondet_below(C05_PER);
+  dispatch<StepsCase, C05_PER>(sel);
 }
 
 // ------------------------------------------------------------------------------------------------------------------
